@@ -8,6 +8,7 @@ package tnet
 import (
 	"errors"
 	"net"
+	"os"
 	"sync"
 	"time"
 )
@@ -30,12 +31,17 @@ type Conn struct {
 
 	in      chan Dgram
 	closeCh chan struct{}
+
+	// read deadline (as net.UDPConn: a read fails with os.ErrDeadlineExceeded once it has passed;
+	// setting it wakes a blocked read so that it sees the new value)
+	rdl   time.Time
+	rdlCh chan struct{}
 }
 
 var ErrClosed = errors.New("tnet: use of closed connection")
 
 func NewConn(local *net.UDPAddr) *Conn {
-	c := &Conn{local: local, in: make(chan Dgram), closeCh: make(chan struct{})}
+	c := &Conn{local: local, in: make(chan Dgram), closeCh: make(chan struct{}), rdlCh: make(chan struct{})}
 	c.cond = sync.NewCond(&c.mu)
 	return c
 }
@@ -45,12 +51,42 @@ func (c *Conn) ReadMsgUDP(b, oob []byte) (n, oobn, flags int, addr *net.UDPAddr,
 	c.reads++
 	c.cond.Broadcast()
 	c.mu.Unlock()
-	select {
-	case d := <-c.in:
-		n = copy(b, d.Data)
-		return n, 0, 0, d.Src, nil
-	case <-c.closeCh:
-		return 0, 0, 0, nil, ErrClosed
+	for {
+		c.mu.Lock()
+		dl, changed := c.rdl, c.rdlCh
+		c.mu.Unlock()
+		var expired <-chan time.Time
+		var tm *time.Timer
+		if !dl.IsZero() {
+			d := time.Until(dl)
+			if d <= 0 {
+				// like a socket whose deadline has passed; the pause keeps a caller that retries in a
+				// loop from spinning at full speed
+				time.Sleep(200 * time.Microsecond)
+				return 0, 0, 0, nil, os.ErrDeadlineExceeded
+			}
+			tm = time.NewTimer(d)
+			expired = tm.C
+		}
+		select {
+		case d := <-c.in:
+			if tm != nil {
+				tm.Stop()
+			}
+			n = copy(b, d.Data)
+			return n, 0, 0, d.Src, nil
+		case <-c.closeCh:
+			if tm != nil {
+				tm.Stop()
+			}
+			return 0, 0, 0, nil, ErrClosed
+		case <-expired:
+			return 0, 0, 0, nil, os.ErrDeadlineExceeded
+		case <-changed:
+			if tm != nil {
+				tm.Stop()
+			}
+		}
 	}
 }
 
@@ -88,9 +124,16 @@ func (c *Conn) Close() error {
 
 func (c *Conn) LocalAddr() net.Addr                { return c.local }
 func (c *Conn) RemoteAddr() net.Addr               { return nil }
-func (c *Conn) SetDeadline(t time.Time) error      { return nil }
-func (c *Conn) SetReadDeadline(t time.Time) error  { return nil }
+func (c *Conn) SetDeadline(t time.Time) error      { return c.SetReadDeadline(t) }
 func (c *Conn) SetWriteDeadline(t time.Time) error { return nil }
+func (c *Conn) SetReadDeadline(t time.Time) error {
+	c.mu.Lock()
+	c.rdl = t
+	close(c.rdlCh)
+	c.rdlCh = make(chan struct{})
+	c.mu.Unlock()
+	return nil
+}
 
 // Reads returns how many times the endpoint has entered ReadMsgUDP.
 func (c *Conn) Reads() int {
